@@ -1087,6 +1087,8 @@ static int vc_motion(int cmd)
 	if (r1 == r2 && o1 > o2)
 		swap(&o1, &o2);
 	o1 = ren_noeol(lbuf_get(xb, r1), o1);
+	if (!lnmode && o2 > lbuf_eol(xb, r2))
+		o2 = lbuf_eol(xb, r2);
 	if (!lnmode && strchr("fFtTeE%", mv))
 		if (o2 < lbuf_eol(xb, r2))
 			o2 = ren_noeol(lbuf_get(xb, r2), o2) + 1;
